@@ -164,6 +164,11 @@ fn main() {
                         } else { vec![] };
                         for k in 0..n {
                             if !hostile.is_empty() && k % 40 == 7 {
+                                // a policy BUILT 120 levels deep whose innermost term is unknown: refused - and nothing of that refusal may
+                                // linger for the calls that follow (of this thread or of the others)
+                                { let mut p = ap("D::zz"); for _ in 0..120 { p = AccessPolicy::Disjunction(Box::new(ap("D::a")), Box::new(p)); }
+                                  let r = std::panic::catch_unwind(std::panic::AssertUnwindSafe(|| cc.encaps(&mpk, &p).is_ok()));
+                                  if r.is_err() { errs.push("a deeply nested policy made a call PANIC".to_string()); } }
                                 for hb in &hostile {
                                     if let Ok(x) = cosmian_cover_crypt::XEnc::deserialize(hb) {
                                         let m = msk.lock().unwrap();
@@ -226,6 +231,14 @@ fn main() {
             cc.rekey(&mut w.msk, &ap("D::b")).unwrap();
             w.mpk = cc.update_msk(&mut w.msk).unwrap();
             cc.refresh_usk(&mut w.msk, &mut w.usk_b, true).unwrap();
+            // a public key of ANOTHER master key (independent setup, same structure): the re-encapsulation is made under that
+            // key - its owner's users open it to the new secret
+            { let w2 = world(&cc);
+              match cc.recaps(&w.msk, &w2.mpk, &w.enc_b) {
+                  Ok((s, e)) => { if cc.decaps(&w2.usk_b, &e).ok().flatten() != Some(s) { println!("FAIL re-encapsulation under the public key of another master key is not opened by that master key's user"); }
+                      if cc.decaps(&w2.usk, &e).ok().flatten().is_some() { println!("FAIL re-encapsulation under a foreign public key opened by a key outside the audience"); } }
+                  Err(e) => println!("FAIL re-encapsulation under the public key of another master key (same structure) failed: {e}"),
+              } }
             let w = Arc::new(w); let bar = Arc::new(std::sync::Barrier::new(t));
             let hs: Vec<_> = (0..t).map(|_| { let cc = cc.clone(); let w = w.clone(); let bar = bar.clone(); std::thread::spawn(move || {
                 bar.wait();
